@@ -9,6 +9,8 @@ import (
 	"strings"
 	"time"
 
+	"github.com/ogen-go/ogen"
+	"github.com/ogen-go/ogen/gen"
 	ogenjson "github.com/ogen-go/ogen/json"
 	"github.com/ogen-go/ogen/jsonpointer"
 	"github.com/ogen-go/ogen/jsonschema"
@@ -32,6 +34,10 @@ type observation struct {
 	AA   string             `json:"aa"`
 	Mal  bool               `json:"mal"`
 	Enum string             `json:"enum"`
+	// Red: for two number texts, whether the generator's default-response reduction
+	// (gen/reduce.go compareNum) took two responses that differ only in this bound for
+	// the same one: "folded" | "kept" | "err" | "na"
+	Red string `json:"red"`
 }
 
 func equal(a, b string) (res string) {
@@ -67,13 +73,53 @@ func enumOutcome(a, b string) (res string) {
 	return "err"
 }
 
+func isNumberText(t string) bool {
+	if t == "" {
+		return false
+	}
+	c := t[0]
+	return (c == '-' || c >= '0' && c <= '9') && stdjson.Valid([]byte(t))
+}
+
+// reduceOutcome builds a document with two operations whose only responses are inline
+// default responses {type: number, minimum: a} and {type: number, minimum: b} and tells
+// whether the generator folded them into one convenient error type.
+func reduceOutcome(a, b string) (res string) {
+	defer func() {
+		if e := recover(); e != nil {
+			res = "panic"
+		}
+	}()
+	op := func(id, min string) *ogen.PathItem {
+		return &ogen.PathItem{Get: &ogen.Operation{OperationID: id, Responses: ogen.Responses{
+			"200": &ogen.Response{Description: "ok"},
+			"default": &ogen.Response{Description: "err", Content: map[string]ogen.Media{
+				"application/json": {Schema: &ogen.Schema{Type: "number", Minimum: ogen.Num(min)}}}}}}}
+	}
+	spec := &ogen.Spec{OpenAPI: "3.0.3", Info: ogen.Info{Title: "t", Version: "1"},
+		Paths: ogen.Paths{"/a": op("a", a), "/b": op("b", b)}}
+	g, err := gen.NewGenerator(spec, gen.Options{})
+	if err != nil {
+		return "err"
+	}
+	for name := range g.Types() {
+		if strings.HasPrefix(name, "ErrResp") {
+			return "folded"
+		}
+	}
+	return "kept"
+}
+
 var nullSp = stdjson.RawMessage(`{"t":"lit","v":"null"}`)
 
 func observe(sa, sb stdjson.RawMessage, ta, tb string, withEnum bool) observation {
-	o := observation{Sa: sa, Sb: sb, Ta: bx.Ints(ta), Tb: bx.Ints(tb), Enum: "na"}
+	o := observation{Sa: sa, Sb: sb, Ta: bx.Ints(ta), Tb: bx.Ints(tb), Enum: "na", Red: "na"}
 	o.AB, o.BA, o.AA = equal(ta, tb), equal(tb, ta), equal(ta, ta)
 	if withEnum {
 		o.Enum = enumOutcome(ta, tb)
+		if isNumberText(ta) && isNumberText(tb) {
+			o.Red = reduceOutcome(ta, tb)
+		}
 	}
 	return o
 }
@@ -541,6 +587,13 @@ func Check(r *core.Run) error {
 			r.Nontrivial(fmt.Sprintf("%s|%s|%s|%s|%v|%s", shape(bx.Str(o.Ta)), shape(bx.Str(o.Tb)), o.AB, o.BA, o.Mal, o.Enum))
 		}
 	}
+	red := map[string]int{}
+	for _, o := range all {
+		red[o.Red]++
+	}
+	r.Cov("reduction_pairs_folded", red["folded"])
+	r.Cov("reduction_pairs_kept", red["kept"])
+	r.Cov("reduction_pairs_generator_error", red["err"])
 	r.AddEvals(int64(len(all)))
 	vs, err := obs.Check(r, lines, obs.CheckOpts{Module: "JSONEqualCheck", Cfg: cfg(r), ChunkSize: 6000})
 	if err != nil {
@@ -548,7 +601,7 @@ func Check(r *core.Run) error {
 	}
 	for _, v := range vs {
 		o := all[v.Index]
-		what := fmt.Sprintf("json.Equal(%q, %q) = %s, swapped = %s, reflexive = %s, enum = %s", bx.Str(o.Ta), bx.Str(o.Tb), o.AB, o.BA, o.AA, o.Enum)
+		what := fmt.Sprintf("json.Equal(%q, %q) = %s, swapped = %s, reflexive = %s, enum = %s, default-response reduction = %s", bx.Str(o.Ta), bx.Str(o.Tb), o.AB, o.BA, o.AA, o.Enum, o.Red)
 		switch {
 		case v.Kind == "drift":
 			r.Drift(what)
